@@ -80,7 +80,7 @@ def parse_file(path):
         if raw[0] in ' \t' and last is not None:
             lst, idx = last
             extra = raw.strip()
-            for _pass in range(4):
+            for _pass in range(8):
                 for nm, txt in file_lets + cur.lets:
                     extra = re.sub(r'\b%s\b' % nm, (lambda m, t=txt: t if ';' in t else '(' + t + ')'), extra)
             lst[idx] = lst[idx] + ' ' + extra
@@ -103,7 +103,7 @@ def parse_file(path):
             continue
         if cur is None:
             raise ContractError('%s: clause before "function"' % where)
-        for _pass in range(4):
+        for _pass in range(8):
             for nm, txt in file_lets + cur.lets:
                 line = re.sub(r'\b%s\b' % nm, (lambda m, t=txt: t if ';' in t else '(' + t + ')'), line)
         m = re.match(r'^(requires|ensures|assigns|frees)(!?)(?=\s|$)\s*(.*)$', line)
